@@ -102,7 +102,7 @@ def row_body(chk) -> RowBody:
     ix = chk.ix
     f = ix.get_method("FrameData", "_make_body_bytes")
     chk.consult(f)
-    su = chk.terms.inline(f, 3)
+    su = chk.terms.inline(f, 3, stop=lambda g: g.module is not f.module)   # encoders of other modules stay calls
     rb = RowBody()
     rb.func, rb.summary = f, su
     rets = [t for _, t, _ in su.returns]
